@@ -49,11 +49,17 @@ def to_dt(t):
     return (cm.BASE + int(t) * cm.TICK).astype("datetime64[us]").astype(dt.datetime)
 
 
-def write_side(root, name, points, emb, split, T):
-    """points: list of (t, pos) with global ids 1..n; one pickle file per segment that holds at least one point"""
+def write_side(root, name, points, emb, split, T, layout="flat"):
+    """points: list of (t, pos) with global ids 1..n; one pickle file per segment that holds at least one point.
+    layout "daydirs" (segments of equal length only): day sub-directories, names that spell the START only and a fixed
+    time_coverage - the ticks cross midnight, so a file of the last directory of the year reaches into the next day."""
     from typhon.files import FileSet
     os.makedirs(root)
-    fs = FileSet(os.path.join(root, NAME + ".pkl"), handler=handler(), name=name, max_threads=2)
+    if layout == "daydirs" and split in ("per-tick", "pairs"):
+        fs = FileSet(os.path.join(root, "{year}", "{month}", "{day}", "{hour}{minute}{second}.pkl"), handler=handler(), name=name,
+                     max_threads=2, time_coverage=__import__("datetime").timedelta(seconds=59 if split == "per-tick" else 119))
+    else:
+        fs = FileSet(os.path.join(root, NAME + ".pkl"), handler=handler(), name=name, max_threads=2)
     files = []
     for a, b in SPLITS[split](T):
         idx = [i for i, p in enumerate(points) if a <= p[0] <= b]
@@ -61,6 +67,7 @@ def write_side(root, name, points, emb, split, T):
             continue
         ds = cm.dataset([points[i] for i in idx], emb, "linear", ids=[i + 1 for i in idx])
         path = fs.get_filename((to_dt(a), to_dt(b) + __import__("datetime").timedelta(seconds=59)))
+        os.makedirs(os.path.dirname(path), exist_ok=True)
         with open(path, "wb") as f:
             pickle.dump(ds, f)
         files.append(os.path.basename(path))
@@ -108,8 +115,8 @@ def one_run(case, row, conf, fakes=None, seed=0):
     saved = (CM.Process, CM.Queue)
     world = None
     try:
-        fa, files_a = write_side(os.path.join(root, "a"), "A", P, emb, conf["split_a"], T)
-        fb, files_b = write_side(os.path.join(root, "b"), "B", S, emb, conf["split_b"], T)
+        fa, files_a = write_side(os.path.join(root, "a"), "A", P, emb, conf["split_a"], T, conf.get("layout", "flat"))
+        fb, files_b = write_side(os.path.join(root, "b"), "B", S, emb, conf["split_b"], T, conf.get("layout", "flat"))
         bad = conf.get("unreadable")
         removed = set()
         if bad is not None:
@@ -222,6 +229,8 @@ def configs(n, tier):
             "K": 1 + n % 3, "bundle": [None, "primary", "daily"][n % 3], "output": "memory" if n % 4 else "fileset"}
     if base["output"] == "fileset" and n % 8 == 0:
         base["via"] = "search"
+    if n % 5 == 2 or n % 7 == 3:
+        base["layout"] = "daydirs"
     out.append(base)
     if tier != "quick":
         out.append(dict(base, split_a=splits[(n + 2) % 4], split_b=splits[(n + 3) % 4], K=1 + (n + 1) % 3,
